@@ -113,3 +113,145 @@ def s_cast_identity(ctx):
 
 SCENARIOS.append(Scenario("C05.rules.CastIdentity", s_cast_identity, [(BASIC, "CastIdentity.check"), (BASIC, "CastIdentity.rewrite")],
                           trusted=TRUST, max_paths=2000))
+
+
+# ------------------------------------------------------------------ Cast(ConstantOfShape) ---------------------
+
+class CArr:
+    """one-element constant array of a numeric ONNX type holding a symbolic value (what attr.value.numpy() returns)"""
+
+    def __init__(self, t, tname):
+        self.t = t
+        self.tname = tname
+        self.shape = (1,)
+        self.ndim = 1
+        self.size = 1
+
+    def reshape(self, *a):
+        return self
+
+    def flatten(self):
+        return self
+
+    def __getitem__(self, k):
+        return self if isinstance(k, slice) else PyScalar(self.t, self.tname)
+
+    def item(self, *a):
+        return PyScalar(self.t, self.tname)
+
+    def astype(self, np_dtype):
+        dst = _np_to_name(np_dtype)
+        if dst is None:
+            raise Undecided(f"astype to an unmodelled dtype {np_dtype!r}")
+        out, _defined = cast16(self.t, self.tname, dst)
+        return CArr(out, dst)
+
+
+class PyScalar:
+    """the Python scalar a numpy element converts to (int / float / bool), still symbolic"""
+
+    def __init__(self, t, tname):
+        self.t = t
+        self.tname = tname
+
+
+for _n in ("reshape", "flatten", "__getitem__", "item", "astype"):
+    getattr(CArr, _n)._pyvc_native = True
+
+
+def _np_to_name(np_dtype):
+    import numpy as np
+    import onnx_ir as ir
+    for nm in casting.NUMERIC:
+        try:
+            if np.dtype(ir.DataType[nm].numpy()) == np.dtype(np_dtype):
+                return nm
+        except TypeError:
+            continue
+    return None
+
+
+def s_cast_constant_of_shape(ctx):
+    """cast_constant_of_shape_rule: Cast(ConstantOfShape(shape, value=v), to=t) -> ConstantOfShape(shape, value=v').
+    Post, for EVERY value v of every numeric element type and every numeric target type t: the rewrite function builds the
+    replacement (it does not raise) and v' = Cast(v, t) exactly (theories/casting.py, bit-precise; where Cast is
+    unspecified - NaN or an out-of-range float to an integer type - nothing is demanded), stored with element type t."""
+    import numpy as np
+    import onnx_ir as ir
+    from onnxscript.rewriter.rules.common import _cast_constant_of_shape as mod
+    I = Interp(ctx)
+    names = list(casting.NUMERIC)
+    src = names[ctx.choose(len(names), "element type of the fill value")]
+    dst = names[ctx.choose(len(names), "target type of the Cast")]
+    v = casting.symbolic("v", src)
+    ctx.witness["v"] = v
+    scalar = SObj(ir.Attr, "value_attr")
+    tensor = SObj(ir.Tensor, "value_tensor")
+
+    def f_numpy():
+        raise AssertionError
+    I.models[f_numpy] = lambda interp: CArr(v, src)
+    tensor.fields.update(numpy=f_numpy, dtype=ir.DataType[src])
+    scalar.fields.update(name="value", value=tensor, type=ir.AttributeType.TENSOR)
+    to = ir.AttrInt64("to", int(ir.DataType[dst]))
+    made = []
+
+    def m_tensor(interp, value, dtype=None, **kw):
+        if isinstance(value, CArr):
+            made.append((value.t, value.tname, dtype))
+            return ("tensor", len(made))
+        items = list(interp.iterate(value))
+        if len(items) == 1 and isinstance(items[0], PyScalar):
+            # numpy.array([python scalar], dtype): an integer that does not fit raises OverflowError, NaN / inf to an
+            # integer type raise ValueError / OverflowError; everything else converts like astype
+            ps = items[0]
+            tgt = dtype.name if dtype is not None else ps.tname
+            k_src, k_dst = casting.NUMERIC[ps.tname], casting.NUMERIC.get(tgt)
+            if k_dst is None:
+                raise Undecided(f"ir.tensor to an unmodelled dtype {dtype!r}")
+            out, defined = cast16(ps.t, ps.tname, tgt)
+            if k_dst[0] == "int":
+                if k_src[0] == "int":
+                    back, _ = casting.cast(out, tgt, ps.tname)
+                    fits = (back == ps.t) if k_src[1] >= k_dst[1] or k_src[2] == k_dst[2] else z3.BoolVal(True)
+                    if k_src[2] != k_dst[2]:
+                        fits = z3.And(fits, (ps.t >= 0) if k_src[2] else z3.BoolVal(True))
+                    if not interp.truth(wrap_bool(fits)):
+                        raise PyRaise(OverflowError(f"Python integer out of bounds for {tgt.lower()}"))
+                elif k_src[0] == "fp":
+                    if not interp.truth(wrap_bool(defined)):
+                        raise PyRaise(ValueError("cannot convert float NaN / infinity / out-of-range value to integer"))
+            made.append((out, tgt, dtype))
+            return ("tensor", len(made))
+        raise Undecided("ir.tensor of something else")
+    I.models[ir.tensor] = m_tensor
+    rec = OpRecorder()
+    shape = ("var", "shape")
+    try:
+        r = I.call(mod.fused_cast_constant_of_shape, [rec, shape, scalar, to])
+    except PyRaise as e:
+        ctx.check(f"C05.rules.cast_constant_of_shape.replacement_is_built_for_every_fill_value[{src} -> {dst}]", False,
+                  "C05 / C04: 'optimize, rewrite ... return without raising' — " + f"raised {e.exc!r}")
+        return
+    ctx.check(f"C05.rules.cast_constant_of_shape.replacement_is_built_for_every_fill_value[{src} -> {dst}]", True, CL)
+    ok = isinstance(r, Call) and r.op == "ConstantOfShape" and r.args == (shape,) and set(r.kwargs) == {"value"} and len(made) == 1 and r.kwargs["value"] == ("tensor", 1)
+    ctx.check("C05.rules.cast_constant_of_shape.replacement_is_constant_of_shape_of_the_same_shape_input", ok, CL)
+    if not ok:
+        return
+    t_new, tname_new, dtype_new = made[0]
+    ctx.check(f"C05.rules.cast_constant_of_shape.new_fill_value_has_the_target_element_type[{src} -> {dst}]", tname_new == dst and dtype_new == ir.DataType[dst], CL)
+    if tname_new != dst:
+        return
+    want, defined = cast16(v, src, dst)
+    ctx.check(f"C05.rules.cast_constant_of_shape.new_fill_value_is_the_cast_of_the_old_one_for_every_value[{src} -> {dst}]",
+              z3.Implies(defined, t_new == want), CL)
+
+
+def wrap_bool(b):
+    from pyvc.values import wrap
+    return wrap(b)
+
+
+SCENARIOS.append(Scenario("C05.rules.cast_constant_of_shape", s_cast_constant_of_shape,
+                          [("onnxscript/rewriter/rules/common/_cast_constant_of_shape.py", "fused_cast_constant_of_shape")],
+                          trusted=TRUST + ["numpy ndarray.astype between numeric dtypes is ONNX Cast; numpy.array([python scalar], dtype) raises for integers that do not fit"], max_paths=4000))
